@@ -354,6 +354,14 @@ macro_rules! float_checks {
                         ensure!(same((&aa * k).0, a * k) && same((&aa / k).0, a / k) && same((-&aa).0, -a), "scalar-ref-forms", "&a * k, &a / k, -&a");
                         let s: $A<F> = [aa].iter().sum();
                         ensure!(same(s.0, 0.0 + a), "sum-single", "Sum of one angle");
+                        // iterators that do not know their length
+                        let s: $A<F> = vec![aa, bb, aa].into_iter().filter(|_| true).sum();
+                        ensure!(same(s.0, ((0.0 + a) + b) + a), "sum-unsized-values", "Sum over a filtered iterator of values");
+                        let s: $A<F> = [aa, bb, aa].iter().filter(|_| true).sum();
+                        ensure!(same(s.0, ((0.0 + a) + b) + a), "sum-unsized-refs", "Sum over a filtered iterator of references");
+                        let mut k = 0;
+                        let s: $A<F> = std::iter::from_fn(|| { k += 1; if k <= 2 { Some(if k == 1 { aa } else { bb }) } else { None } }).sum();
+                        ensure!(same(s.0, (0.0 + a) + b), "sum-from_fn", "Sum over a from_fn iterator");
                         let s: $A<F> = [aa; 0].iter().sum();
                         ensure!(same(s.0, 0.0) && same($A::<F>::zero().0, 0.0), "sum-empty", "empty Sum and zero()");
                     }};
